@@ -381,6 +381,8 @@ def gen_spec(base_seed, i, W):
     if kind in ("random", "window"):
         policy["hold"] = rng.random() < 0.5
         policy["hold_delay"] = (10, 40, 200, 1000)[i % 4]
+    if policy.get("hold"):
+        policy["hold_k"] = (1, 2, 5)[(i // 4) % 3]
     if kind in ("random", "window", "shared"):
         policy["exc_q"] = rng.choice((0.0, 0.1, 0.3, 0.3)) if theme == "failing" else rng.choice((0.0, 0.0, 0.1, 0.3))
         policy["exc_release"] = rng.choice((1 / 50, 1 / 300, 1 / 2000))
